@@ -3,8 +3,7 @@
    get_full_class_name are Gen/JsonResolve.v, regenerated from the source on every run.
    Quantifiers: every value of the grammar (any list nesting, any mix of classes, any payload type P), every world of
    classes, every user to_json/_from_json pair and registered (de)serialiser pair meeting the per-class round-trip
-   hypothesis.  F = [value_ok]: no object's class is defined inside a function ("<locals>" in its qualified name), none also
-   derives from a builtin type (int, float, str, list, tuple, set: finding C18-d), and every
+   hypothesis.  F = [value_ok]: no object's class is defined inside a function ("<locals>" in its qualified name), and every
    class is named by its own tag: the C19 decision table, read on the world, resolves "<module>.<qualified name>" to the
    class itself (module-level classes and classes nested in classes alike, since 70c605d).
    Modelled, not proved: json.loads (json.dumps j) = j ([json_text]).  _resolve_enclosing_class: hand model + source pin. *)
@@ -53,7 +52,7 @@ Theorem C18_fragment_is_named_classes :
   forall (w : world) (c : cls),
     unique_names w -> In c w -> module_part_ok (c_mod c) = true -> dot_free (c_qual c) -> c_qual c <> [] ->
     enclosing_classes_defined w c -> no_module_named_like_class_path w c ->
-    c_kind c <> KPlain -> is_local c = false -> c_base c = None -> cls_ok w c = true.
+    c_kind c <> KPlain -> is_local c = false -> cls_ok w c = true.
 Proof. exact named_classes_are_ok. Qed.
 
 (* regression examples for the former finding C18-a (fixed by 70c605d): a serialiser class nested in another class now
@@ -78,7 +77,7 @@ Proof. exact nested_class_tag_qualified. Qed.
    for every such class, every payload, children and user code: *)
 Theorem C18_refuted_local_class :
   forall (P : Type) ufields usplit rser rdeser as_leaf as_items (w : world) (c : cls) (own : P) (kids : list (value P)) (fuel : nat),
-    c_kind c = KSer -> c_base c = None -> is_local c = true ->
+    c_kind c = KSer -> is_local c = true ->
     round_trip P ufields usplit rser rdeser as_leaf as_items w fuel (VObj c own kids) = Some (RaiseJ ClassNotSerializableError).
 Proof. exact local_class_refused. Qed.
 
@@ -87,16 +86,17 @@ Example C18_refuted_local_class_witness :
   round_trip jv s_ufields s_usplit s_rser s_rdeser s_as_leaf s_as_items [c_local] 5 v_local = Some (RaiseJ ClassNotSerializableError).
 Proof. exact local_class_not_serializable. Qed.
 
-(* outside F -- known finding C18-d: a class that ALSO derives from a builtin type (int / float / str / list / tuple / set).
-   to_json tests isinstance(obj, leaf_types) / list_like_classes before it looks for SubclassJSONSerializer or a registered
-   serialiser, so the object is written as the builtin value it also is and comes back as a plain int / list *)
-Theorem C18_refuted_builtin_base :
-  in_grammar (VObj c_status (JInt 404) [] : value jv) = true /\
-  round_trip jv s_ufields s_usplit s_rser s_rdeser s_as_leaf s_as_items w_base 5 (VObj c_status (JInt 404) []) = Some (Return (VInt 404)) /\
-  in_grammar (VObj c_traj JNull [VInt 1; VInt 2] : value jv) = true /\
+(* regression example for the former finding C18-d (fixed by 8efc58f): a registered type deriving from int and a serialiser
+   class deriving from list are inside F and round-trip (before, they came back as a plain int / list because to_json tested
+   the builtin leaf / list types first); C18_round_trip covers registered / serialisable subclasses of builtin types *)
+Example C18_regression_builtin_base :
+  value_ok w_base (VObj c_status (JInt 404) [] : value jv) = true /\
+  round_trip jv s_ufields s_usplit s_rser s_rdeser s_as_leaf s_as_items w_base 5 (VObj c_status (JInt 404) [])
+  = Some (Return (VObj c_status (JInt 404) [])) /\
+  value_ok w_base (VObj c_traj JNull [VInt 1; VInt 2] : value jv) = true /\
   round_trip jv s_ufields s_usplit s_rser s_rdeser s_as_leaf s_as_items w_base 5 (VObj c_traj JNull [VInt 1; VInt 2])
-  = Some (Return (VList [VInt 1; VInt 2])).
-Proof. exact builtin_base_loses_class. Qed.
+  = Some (Return (VObj c_traj JNull [VInt 1; VInt 2])).
+Proof. exact builtin_base_round_trips. Qed.
 
 (* outside F -- known finding C18-c: a class that is not bound under its qualified name in its module (defined, but not in
    the world of bindings): types.MappingProxyType = builtins.mappingproxy, name-mangled private nested classes *)
@@ -120,5 +120,4 @@ Print Assumptions C18_sample_round_trip.
 Print Assumptions C18_model_is_spec.
 Print Assumptions C18_fragment_is_named_classes.
 Print Assumptions C18_refuted_local_class.
-Print Assumptions C18_refuted_builtin_base.
 Print Assumptions C18_refuted_unbound_class.
